@@ -29,10 +29,11 @@ const (
 	fitDominant
 	fitStagnating
 	fitDistinct
+	fitHuge
 	fitShapes
 )
 
-var fitNames = []string{"all-zero", "constant", "uniform", "log-normal", "one-dominant", "stagnating", "distinct-positive"}
+var fitNames = []string{"all-zero", "constant", "uniform", "log-normal", "one-dominant", "stagnating", "distinct-positive", "huge (sum overflows)"}
 var ctorNames = []string{"NewPopulation", "NewPopulationRandom", "ReadPopulation"}
 
 type EvoScenario struct {
@@ -151,6 +152,17 @@ func assignFitness(r *rand.Rand, shape, gen int, pop *genetics.Population) {
 			}
 		case fitDistinct:
 			org.Fitness = math.Exp(r.NormFloat64()*2) + float64(i+1)*1e-7
+		case fitHuge:
+			// finite values whose sum over the population is not: a few outliers near the top of the float64 range, or all equal
+			// to the largest finite value
+			switch {
+			case gen%3 == 0:
+				org.Fitness = math.MaxFloat64
+			case i%4 == 0:
+				org.Fitness = 1.5e308 * (0.5 + r.Float64()/2)
+			default:
+				org.Fitness = r.Float64() * 100
+			}
 		}
 	}
 }
